@@ -72,7 +72,12 @@ def example_grammars():
     pair = pp.Word("ab")("k") + pp.Suppress(":") + item
     both = pp.Group(pair("first")) + pp.Suppress(",") + pp.Group(pair.copy()) + pp.Suppress(",") + pp.Group(pair("third"))
     item <<= pp.Word("12") | pp.Group(pp.Suppress("(") + both + pp.Suppress(")"))
-    return [("named-copies-forward", prog, ["on a{b=1;}b{a=2;}", "on a{}b{on b{}a{a=1;}}"]),
+    # a repetition whose stop_on sentinel is a SEPARATE object from the element that follows it (ignore() does not reach the
+    # sentinel) and also matches the repetition's body (F-09d)
+    stop1 = pp.OneOrMore(pp.Word("ab"), stop_on=pp.Literal("ba")) + pp.Literal("ba") + pp.Suppress(";")
+    stop2 = pp.Group(pp.ZeroOrMore(pp.Word("ab"), stop_on=pp.Keyword("b"))) + pp.Keyword("b") + pp.Word("12")
+    return [("stop-on-separate-sentinel", stop1, ["a b ba;", "ab ba;"]), ("stop-on-separate-keyword", stop2, ["a ab b 1", "b 2"]),
+            ("named-copies-forward", prog, ["on a{b=1;}b{a=2;}", "on a{}b{on b{}a{a=1;}}"]),
             ("named-copies-pair", both, ["a:1,b:2,a:12", "a:(a:1,b:2,b:1),b:2,a:1"]),
             ("json", val, ['{a:[1,2,{b:a}],b:12}', '[a,b,[1,[2]],{}]', 'ab']), ("arith", expr, ["1+2*(12-1)/2", "(1)", "1*2*2+1"]),
             ("combine-nonadjacent", use, ["@ab.ba;@a;", "@a.b.ab;"])]
